@@ -9,6 +9,7 @@ pub mod c04;
 pub mod c05;
 pub mod c06;
 pub mod c07;
+pub mod c08;
 pub mod c09;
 pub mod c10;
 pub mod c11;
@@ -41,6 +42,7 @@ pub fn make(id: &str, tier: Tier) -> Option<Box<dyn Check>> {
     "C05" => Some(Box::new(c05::C05::new(tier))),
     "C06" => Some(Box::new(c06::C06::new(tier))),
     "C07" => Some(Box::new(c07::C07::new(tier))),
+    "C08" => Some(Box::new(c08::C08::new(tier))),
     "C09" => Some(Box::new(c09::C09::new(tier))),
     "C10" => Some(Box::new(c10::C10::new(tier))),
     "C11" => Some(Box::new(c11::C11::new(tier))),
